@@ -59,7 +59,7 @@ def main(tier):
             run('asan', fam, **small)
         for fam in ('graphs-g3', 'faults-g3', 'repairs-g3'):
             run('asan', fam)
-        for fam in ('graphs-h2', 'graphs-u3', 'graphs-d3', 'graphs-e3', 'faults-h2', 'faults-u3', 'faults-d3', 'faults-e3', 'repairs-h2', 'repairs-u3', 'repairs-d3', 'graphs-g4', 'faults-g4', 'graphs-k3', 'faults-k3'):
+        for fam in ('graphs-h2', 'graphs-u3', 'graphs-d3', 'graphs-e3', 'faults-h2', 'faults-u3', 'faults-d3', 'faults-e3', 'repairs-h2', 'repairs-u3', 'repairs-d3', 'repairs-e3', 'graphs-g4', 'faults-g4', 'graphs-k3', 'faults-k3'):
             run('plain', fam)
     return c.finish(rule=RULE, assumptions=ASSUMPTIONS,
                     extra_cov={'fault_scenarios': c.counters.get('fault_scenarios', 0), 'repair_sequences': c.counters.get('repair_sequences', 0)})
